@@ -137,6 +137,18 @@ func (r *c08Rules) checkResult(w *W, tname, mname string, res MRes, ctx string, 
 			if n < 0 || n > 6 {
 				bad("weekday outside 0..6")
 			}
+		case mname == "GetMonth" && strings.HasPrefix(tname, "Solar"):
+			if n < 1 || n > 12 {
+				bad("civil month outside 1..12")
+			}
+		case mname == "GetMonth" && (tname == "Lunar" || tname == "LunarMonth" || tname == "LunarTime" || tname == "Tao" || tname == "Foto"):
+			if n == 0 || n < -12 || n > 12 {
+				bad("lunar month outside -12..-1, 1..12")
+			}
+		case mname == "GetDay" && (strings.HasPrefix(tname, "Solar") || tname == "Lunar" || tname == "Tao" || tname == "Foto"):
+			if n < 1 || n > 31 || (n > 30 && !strings.HasPrefix(tname, "Solar")) {
+				bad("day of month out of range")
+			}
 		case mname == "GetHour":
 			if n < 0 || n > 23 {
 				bad("hour outside 0..23")
@@ -423,6 +435,49 @@ func runC08(w *W) {
 				visit(calendar.NewSolarSeasonFromYm(d.Y, d.M), "SolarSeason "+d.Ymd, false, false)
 				visit(calendar.NewSolarHalfYearFromYm(d.Y, d.M), "SolarHalfYear "+d.Ymd, false, false)
 				visit(calendar.NewSolarYearFromYear(d.Y), "SolarYear "+d.Ymd, false, false)
+			}
+			// ---- objects reached by navigation (steps of both signs, incl. whole years back onto a January): every
+			// accessor is total and well-formed on them too
+			if ti == 0 {
+				nav := func(name string, f func() interface{}) {
+					var o interface{}
+					if msg, p := try(func() { o = f() }); p {
+						w.Viol("C08:panic:nav:"+name, fmt.Sprintf("%s panicked from %s: %s", name, ctx, msg), ctx)
+						return
+					}
+					visit(o, name+" from "+ctx, true, false)
+				}
+				n := []int{-13, -12, -11, -5, -4, -3, -2, -1, 1, 2, 3, 4, 11, 12, 13, -24, 24}[d.J%17]
+				if d.D == 1 || prev == nil || d.J%16 == 0 {
+					if y2 := d.Y + n/12 - 2; y2 >= 1 && d.Y+n/12+2 <= 9998 {
+						nav(fmt.Sprintf("SolarMonth.Next(%d)", n), func() interface{} { return calendar.NewSolarMonthFromYm(d.Y, d.M).Next(n) })
+						nav(fmt.Sprintf("Solar.NextMonth(%d)", n), func() interface{} { return s.NextMonth(n) })
+						if lmo := calendar.NewLunarMonthFromYm(l.GetYear(), l.GetMonth()); lmo != nil && l.GetYear() > 30 {
+							nav(fmt.Sprintf("LunarMonth.Next(%d)", n), func() interface{} { return lmo.Next(n) })
+						}
+					}
+					if y2 := d.Y + n/4 - 2; y2 >= 1 && d.Y+n/4+2 <= 9998 {
+						nav(fmt.Sprintf("SolarSeason.Next(%d)", n), func() interface{} { return calendar.NewSolarSeasonFromYm(d.Y, d.M).Next(n) })
+					}
+					if y2 := d.Y + n/2 - 2; y2 >= 1 && d.Y+n/2+2 <= 9998 {
+						nav(fmt.Sprintf("SolarHalfYear.Next(%d)", n), func() interface{} { return calendar.NewSolarHalfYearFromYm(d.Y, d.M).Next(n) })
+					}
+					if d.Y+n >= 1 && d.Y+n <= 9998 {
+						nav(fmt.Sprintf("SolarYear.Next(%d)", n), func() interface{} { return calendar.NewSolarYearFromYear(d.Y).Next(n) })
+						nav(fmt.Sprintf("Solar.NextYear(%d)", n), func() interface{} { return s.NextYear(n) })
+						nav(fmt.Sprintf("LunarYear.Next(%d)", n), func() interface{} { return calendar.NewLunarYear(d.Y).Next(n) })
+					}
+				}
+				if d.J%4 == 1 && d.J+40 <= r1JDN(9998, 12, 31) && d.J-40 >= jdnFirst {
+					nav(fmt.Sprintf("Lunar.Next(%d)", n), func() interface{} { return l.Next(n) })
+					nav(fmt.Sprintf("Solar.NextDay(%d)", n), func() interface{} { return s.NextDay(n) })
+					nav(fmt.Sprintf("Solar.NextHour(%d)", n), func() interface{} { return s.NextHour(n) })
+					st := d.J % 7
+					nav(fmt.Sprintf("SolarWeek(start %d).Next(%d,false)", st, n), func() interface{} { return calendar.NewSolarWeekFromYmd(d.Y, d.M, d.D, st).Next(n, false) })
+					if n >= -5 && n <= 5 {
+						nav(fmt.Sprintf("SolarWeek(start %d).Next(%d,true)", st, n), func() interface{} { return calendar.NewSolarWeekFromYmd(d.Y, d.M, d.D, st).Next(n, true) })
+					}
+				}
 			}
 			if prev == nil {
 				w.Sample(map[string]interface{}{"state": ctx, "lunar": lunarYmd(l), "object_types_visited": len(w.R.Distinct["types"])})
